@@ -47,8 +47,8 @@ def sourceHashes : List (String × String) :=
    ("nop", "38a10715a79b43bd"),
    -- frame-slot level (Model/CfgSlots.lean): the slot-choosing switches of cfg.go and the closures
    ("assignStmt: skip-assign switch", "ba87596cde52c992"),
-   ("binaryExpr: findex switch", "48c75e35f0734e48"),
-   ("unaryExpr: findex switch", "878ef56087096278"),
+   ("binaryExpr: findex switch", "3e0cb5dc9e13d05a"),
+   ("unaryExpr: findex switch", "93fe04f42235e3c4"),
    ("isArithmeticAction", "f57163de29913322"),
    ("run.go assign", "59eb4dfab86ac553"),
    ("run.go _return", "6895724d699b988d"),
@@ -82,6 +82,9 @@ def sourceHashes : List (String × String) :=
 --   the define branch unchanged. New rows `case switchStmt#0/#1`, `case switchIfStmt#0/#1` (pre-order scope push, post-order clause wiring): taken after
 --   64eb664 (tagged switch: every expression of a non-constant case list is wired before the clause test; with ONE expression per clause — the fragment —
 --   `c.child[0].tnext = c` as before) and 3b98047 (tagless switch: the conditions of a case list are chained, F53 repaired; one condition: unchanged).
+-- Round-7 sync (/repo at 9f81224, frozen for good): binaryExpr / unaryExpr findex switches — aa2ac2f inserts `check.operationResult(n, <destination or
+--   result type>, …)` (a type check that only returns an error) at the four write-into-destination sites, before the node takes the destination type,
+--   and a `break` after the interface-result arm of the return site; which slot an operator node writes is unchanged. 2992617 and 9f81224 touch nothing tied.
 /-- fingerprints of the functions and clauses Model/Closures.lean transcribes -/
 def closureHashes : List (String × String) :=
   [("newFrame", "8d3a53ebf9cf8afa"),
